@@ -392,23 +392,29 @@ func c17SeedText(dir string, t c17Text) (string, error) {
 	for _, p := range t.M {
 		want[c17ProbSum[p]] = true
 	}
+	// the pending comment of that file spelling out these problems; a changed makeComments may spell out
+	// fewer - then the closest one stands in (JUDGE reports the difference as drift, not as a violation)
+	best, bestN := "", -1
 	for _, p := range reporter.VerifMakeComments(lr.summary, false) {
 		path, text, _, _ := reporter.VerifPendingFields(p)
 		if c17AbsPath(path) != c17ProbFile[t.M[0]] {
 			continue
 		}
-		got := c17Carries(text)
-		if len(got) != len(want) {
-			continue
+		n := 0
+		for _, g := range c17Carries(text) {
+			if want[g] {
+				n++
+			} else {
+				n -= 10
+			}
 		}
-		ok := true
-		for _, g := range got {
-			ok = ok && want[g]
+		if n > bestN {
+			best, bestN = text, n
 		}
-		if ok {
-			c17TextCache.Store(key, text)
-			return text, nil
-		}
+	}
+	if bestN > 0 {
+		c17TextCache.Store(key, best)
+		return best, nil
 	}
 	return "", fmt.Errorf("no pending comment for seed text %+v", t)
 }
